@@ -290,7 +290,23 @@ def functor_actor(ctx) -> None:
     ctx.check(ret is not None and core.src(ret.value) == '((self.actor, *self.args), dict(self.kwargs))', 'R-PICKLE', sp, 'a pickled builder ships all its keyword arguments (a None that overrides a default included)', sp.node, key='Spec:getnewargs-all')
 
 
+def mapping_first(ctx) -> None:
+    """The declared mapping of a class-wrapped actor wins over the origin's own attributes: ``Class.Actor.__getattribute__``
+    falls back to ``getattr(self._origin, item)`` only for names the mapping does not translate - otherwise an origin that
+    happens to have its own ``get_params`` / ``train`` bypasses the mapped implementation (and the hyper-parameter contract
+    built on it)."""
+    prog = ctx.prog
+    fn = prog.func('forml.pipeline.wrap._actor:Class.Actor.__getattribute__')
+    item = [p for p in fn.param_names if p != 'self'][0]
+    direct = [r for r in core.walk_local(fn.node) if isinstance(r, ast.Return) and core.src(r.value) == f'getattr(self._origin, {item})']
+    ctx.floor('C13.mapping-first', len(direct), 1)
+    for r in direct:
+        gs = cfg.cguards(r, fn.node, siblings=True)
+        ctx.check((f'{item} in self.Mapping', False) in gs, 'C13.mapping-first', fn, f'the origin attribute is handed out only for names outside the mapping (guards {gs})', r, key='getattribute:mapping-first')
+
+
 def run(ctx) -> None:
+    mapping_first(ctx)
     functor_actor(ctx)
     decorated_state(ctx)
     serializers(ctx)
